@@ -1,13 +1,12 @@
 (* EvalIdxProgram.v — expressions as PROGRAMS over typed brackets, on a span of the C10 model (Locate/Locate.v):
    every bracket of the expression is one of
-     [`a`]            a backticked label                      [`a`:`b`(:s)]   a label slice, either end possibly open
-     [z]              a canonical integer index               [a:(:s)]        a positional slice with the stop omitted
-   (the shapes outside the classes of the kept findings: positional slices WITH a stop and non-literal positional brackets are
-   finding #15, labels with colon / closing bracket / edge backtick are the label finding).  For such programs, of any length:
-   * the rewriter replaces each bracket by `b_dst` — for label brackets the position / bounds the C10 model computes — and
-     copies everything else (program_rewrite);
-   * the subscript written selects: for a label what label indexing selects, for a positional bracket exactly what the
-     ORIGINAL subscript selects (bracket_meaning, positional_bracket_meaning_kept). *)
+     [`a`]            a backticked label                      [`a`:`b`(:s)]   a label slice, one end possibly open
+     [g]              ANY bracket without a backtick (index, slice with or without stop, arithmetic, tuple, ...)
+   (labels with colon / closing bracket / edge backtick and labels that do not stand alone in their bracket are the kept label
+   findings; mixed brackets are in EvalIdxMixed.v).  For such programs, of any length:
+   * the rewriter replaces each LABEL bracket by `b_dst` — the position / bounds the C10 model computes —, copies every bracket
+     without a backtick verbatim (inner whitespace included: fix 24bdfbd) and copies everything else (program_rewrite);
+   * the subscript written for a label bracket selects what label indexing selects (bracket_meaning). *)
 From Coq Require Import ZArith List Bool String Ascii Lia ZifyBool.
 Import ListNotations.
 Require Import PyBase EvalIdx EvalIdxFacts EvalIdxWhole EvalIdxLocate.
@@ -126,9 +125,8 @@ Qed.
 (* ================================================================== typed brackets *)
 Inductive bracket :=
 | BLabel (a : string)                                       (* [`a`] *)
-| BLabelSlice (oa ob : option string) (st : option Z)       (* [`a`:`b`] / [`a`:`b`:s], None = open end *)
-| BPosIndex (z : Z)                                         (* [z] *)
-| BPosOpenStop (oa : option Z) (st : option Z).             (* [a:] / [a::s] *)
+| BLabelSlice (oa ob : option string) (st : option Z)       (* [`a`:`b`] / [`a`:`b`:s], None = open end (not both) *)
+| BPlain (g : string).                                      (* [g], g without a backtick: anything *)
 
 Definition lab_ok (a : string) : Prop :=
   has_char ch_tick a = false /\ has_char ch_colon a = false /\ has_char ch_close a = false /\ has_char ch_nl a = false.
@@ -137,10 +135,10 @@ Definition st_ok (st : option Z) : Prop := match st with None => True | Some s =
 Definition b_ok (b : bracket) : Prop :=
   match b with
   | BLabel a => lab_ok a
-  | BLabelSlice oa ob st => olab_ok oa /\ olab_ok ob /\ st_ok st
-  | BPosIndex _ => True
-  | BPosOpenStop _ st => st_ok st
+  | BLabelSlice oa ob st => olab_ok oa /\ olab_ok ob /\ st_ok st /\ (oa <> None \/ ob <> None)
+  | BPlain g => has_char ch_tick g = false /\ wf_group g = true
   end.
+Definition is_label_bracket (b : bracket) : bool := match b with BPlain _ => false | _ => true end.
 
 (* the text between the brackets, as the user writes it *)
 Definition b_src (b : bracket) : string :=
@@ -148,9 +146,7 @@ Definition b_src (b : bracket) : string :=
   | BLabel a => bt a
   | BLabelSlice oa ob None => otext oa ++ String ch_colon (otext ob)
   | BLabelSlice oa ob (Some s) => otext oa ++ String ch_colon (otext ob ++ String ch_colon (Z_to_string s))
-  | BPosIndex z => Z_to_string z
-  | BPosOpenStop oa None => ropt oa ++ String ch_colon ""
-  | BPosOpenStop oa (Some s) => ropt oa ++ String ch_colon ("" ++ String ch_colon (Z_to_string s))
+  | BPlain g => g
   end.
 
 Lemma olab_opt_ok o : olab_ok o -> opt_ok o.
@@ -166,9 +162,9 @@ Proof. destruct o as [a|]; [|reflexivity]. intros (_ & _ & C & N). exact (proj2 
 Theorem b_src_wf b : b_ok b -> wf_group (b_src b) = true.
 Proof.
   destruct colon_parts as (CF & CL & CI).
-  destruct b as [a|oa ob st|z|oa st]; cbn [b_ok b_src].
+  destruct b as [a|oa ob st|g]; cbn [b_ok b_src].
   - intros (_ & _ & C & N). destruct (bt_parts a C N) as (F & L & I). apply wf_group_whole; assumption.
-  - intros (Oa & Ob & St).
+  - intros (Oa & Ob & St & _).
     pose proof (otext_inner oa Oa) as Ia. pose proof (otext_inner ob Ob) as Ib.
     assert (Hfirst : forall rest, first_ok (otext oa ++ String ch_colon rest) = true).
     { intros rest. destruct oa as [a|]; [|reflexivity]. apply first_ok_app.
@@ -194,23 +190,21 @@ Proof.
       * apply Hfirst.
       * apply last_ok_app. exact Hlast_ob.
       * apply Hinner. exact Ib.
-  - intros _. destruct (Z_to_string_parts z) as (F & L & I). apply wf_group_whole; assumption.
-  - intros St.
-    assert (Hfirst : forall rest, first_ok (ropt oa ++ String ch_colon rest) = true).
-    { intros rest. destruct oa as [a|]; [|reflexivity]. apply first_ok_app. exact (proj1 (Z_to_string_parts a)). }
-    assert (Ia : inner_ok (ropt oa) = true).
-    { destruct oa as [a|]; [exact (proj2 (proj2 (Z_to_string_parts a)))|reflexivity]. }
-    destruct st as [s|].
-    + destruct (Z_to_string_parts s) as (ZF & ZL & ZI). cbn [append]. apply wf_group_whole.
-      * apply Hfirst.
-      * apply last_ok_app. change (String ch_colon (String ch_colon (Z_to_string s))) with ("::" ++ Z_to_string s).
-        apply last_ok_app. exact ZL.
-      * rewrite inner_ok_app, Ia. change (String ch_colon (String ch_colon (Z_to_string s))) with ("::" ++ Z_to_string s).
-        rewrite inner_ok_app, ZI. reflexivity.
-    + apply wf_group_whole.
-      * apply Hfirst.
-      * apply last_ok_app. exact CL.
-      * rewrite inner_ok_app, Ia. exact CI.
+  - intros [_ W]. exact W.
+Qed.
+
+(* a label bracket contains a backtick, a plain one does not: which branch of the fixed callback is taken *)
+Lemma b_src_tick b : b_ok b -> has_char ch_tick (b_src b) = is_label_bracket b.
+Proof.
+  destruct b as [a|oa ob st|g]; cbn [b_ok b_src is_label_bracket].
+  - intros _. reflexivity.
+  - intros (_ & _ & _ & NE).
+    assert (H : has_char ch_tick (otext oa) || has_char ch_tick (otext ob) = true).
+    { destruct oa as [a|], ob as [b|]; try reflexivity; destruct NE; congruence. }
+    destruct st as [s|]; rewrite has_char_app; cbn [has_char]; rewrite ?has_char_app;
+      replace (Ascii.eqb ch_colon ch_tick) with false by reflexivity; cbn [orb];
+      destruct (has_char ch_tick (otext oa)); cbn [orb] in *; try reflexivity; rewrite H; reflexivity.
+  - intros [T _]. exact T.
 Qed.
 
 (* ================================================================== what each bracket becomes, on a span of the C10 model *)
@@ -222,25 +216,25 @@ Section Program.
   Notation rewrite := (rewrite (c10_has ct sp) (c10_locate gl sp)).
   Notation resolve_bt := (Locate.resolve_bt gl ct sp).
 
-  (* the text written between the brackets: label brackets through C10's lookup / C10's eval_slice_bounds *)
+  (* the text written between the brackets of a LABEL bracket: through C10's lookup / C10's eval_slice_bounds *)
   Definition b_inner (b : bracket) : outcome string :=
     match b with
     | BLabel a => omap (fun l => str_loc (tr_loc l)) (resolve_bt (a, parse_int_raw a))
     | BLabelSlice oa ob st =>
         omap (fun ab => ropt (fst ab) ++ String ch_colon (ropt (snd ab) ++ String ch_colon (ropt st)))
              (Locate.eval_slice_bounds resolve_bt (okey oa) (okey ob))
-    | BPosIndex z => Ret (Z_to_string z)
-    | BPosOpenStop oa st => Ret (ropt oa ++ String ch_colon (ropt None ++ String ch_colon (ropt st)))
+    | BPlain g => Ret g
     end.
   Definition b_dst (b : bracket) : outcome string := omap (fun i => "[" ++ i ++ "]") (b_inner b).
 
-  Theorem bracket_resolves b : b_ok b -> resolve_group (b_src b) = b_dst b.
+  (* the callback on a label bracket *)
+  Theorem bracket_resolves b : b_ok b -> is_label_bracket b = true -> resolve_group (b_src b) = b_dst b.
   Proof.
-    unfold b_dst. destruct b as [a|oa ob st|z|oa st]; cbn [b_ok b_src b_inner].
-    - intros (T & C & _). destruct (bt_facts a C) as (B1 & B2 & B3 & B4).
+    unfold b_dst. destruct b as [a|oa ob st|g]; cbn [b_ok b_src b_inner is_label_bracket]; try discriminate.
+    - intros (T & C & _) _. destruct (bt_facts a C) as (B1 & B2 & B3 & B4).
       rewrite (resolve_group_single _ _ _ B2), (resolve_index_is_resolve_bt gl ct sp a T C).
       destruct (resolve_bt (a, parse_int_raw a)); reflexivity.
-    - intros (Oa & Ob & St). apply olab_opt_ok in Oa. apply olab_opt_ok in Ob.
+    - intros (Oa & Ob & St & _) _. apply olab_opt_ok in Oa. apply olab_opt_ok in Ob.
       destruct st as [s|].
       + rewrite (label_slice_step_text_is_C10_bounds gl ct sp oa ob (Z_to_string s) Oa Ob (ropt_no_colon (Some s))).
         rewrite strip_Z_to_string.
@@ -249,19 +243,9 @@ Section Program.
       + rewrite (label_slice_text_is_C10_bounds gl ct sp oa ob Oa Ob).
         destruct (Locate.eval_slice_bounds resolve_bt (okey oa) (okey ob)) as [[x y]|e]; cbn [omap fst snd]; [|reflexivity].
         unfold bounds_text. cbn [fst snd ropt]. rewrite inner_assoc. reflexivity.
-    - intros _. destruct (numeric_no_special _ (Z_to_string_numeric z)) as (C & T & _ & _).
-      rewrite (positional_index_rewrite _ _ _ T C), parse_pyint_Z_to_string. reflexivity.
-    - intros St. destruct st as [s|].
-      + rewrite (positional_slice_step_rewrite _ _ (ropt oa) "" (Z_to_string s) (ropt_no_tick oa) (ropt_no_colon oa)
-                   eq_refl eq_refl (ropt_no_colon (Some s))).
-        rewrite opt_int_ropt. change (opt_int "") with (Some (@None Z)). cbn [option_map omap].
-        rewrite strip_Z_to_string. cbn [ropt]. rewrite inner_assoc. reflexivity.
-      + rewrite (positional_slice_rewrite _ _ (ropt oa) "" (ropt_no_tick oa) (ropt_no_colon oa) eq_refl eq_refl).
-        rewrite opt_int_ropt. change (opt_int "") with (Some (@None Z)). cbn [option_map omap ropt].
-        rewrite inner_assoc. reflexivity.
   Qed.
 
-  (* ---- what the written subscript selects ---- *)
+  (* ---- what the subscript written for a label bracket selects ---- *)
   Definition b_plain (b : bracket) : Prop :=
     match b with
     | BLabel a => forall x y, resolve_bt (a, parse_int_raw a) <> Ret (Locate.LSlice x y)   (* not a slice-valued pandas location *)
@@ -278,46 +262,23 @@ Section Program.
                               | Ret (a', b') => Some (py_slice_positions n a' b' (step_of st))   (* C10's bounds *)
                               | Raise _ => None
                               end
-    | BPosIndex z => option_map (fun p => [p]) (py_pos n z)
-    | BPosOpenStop oa st => Some (py_slice_positions n oa None (step_of st))
+    | BPlain _ => None                                       (* copied verbatim: Python reads what the user wrote *)
     end.
 
   Lemma step_ok st : st_ok st -> (0 <? step_of st) = true.
   Proof. destruct st as [s|]; cbn [st_ok step_of]; lia. Qed.
 
   Theorem bracket_meaning n b inner :
-    b_ok b -> b_plain b -> b_inner b = Ret inner -> index_sem n inner = b_positions n b.
+    b_ok b -> is_label_bracket b = true -> b_plain b -> b_inner b = Ret inner -> index_sem n inner = b_positions n b.
   Proof.
-    destruct b as [a|oa ob st|z|oa st]; cbn [b_ok b_plain b_inner b_positions].
-    - intros _ P. destruct (resolve_bt (a, parse_int_raw a)) as [[i fl|x y]|e]; cbn [omap]; try discriminate.
+    destruct b as [a|oa ob st|g]; cbn [b_ok b_plain b_inner b_positions is_label_bracket]; try discriminate.
+    - intros _ _ P. destruct (resolve_bt (a, parse_int_raw a)) as [[i fl|x y]|e]; cbn [omap]; try discriminate.
       + intros H; inversion H; subst inner. destruct fl; cbn [tr_loc str_loc]; apply index_sem_single.
       + exfalso. exact (P x y eq_refl).
-    - intros (_ & _ & St) _.
+    - intros (_ & _ & St & _) _ _.
       destruct (Locate.eval_slice_bounds resolve_bt (okey oa) (okey ob)) as [[x y]|e]; cbn [omap fst snd]; [|discriminate].
       intros H; inversion H; subst inner.
       rewrite index_sem_slice3 by apply ropt_no_colon. rewrite slice_sem_ropt, (step_ok st St). reflexivity.
-    - intros _ _ H; inversion H; subst inner. apply index_sem_single.
-    - intros St _ H; inversion H; subst inner.
-      change (index_sem n (ropt oa ++ String ch_colon (ropt None ++ String ch_colon (ropt st)))
-              = Some (py_slice_positions n oa None (step_of st))).
-      rewrite index_sem_slice3 by apply ropt_no_colon. rewrite slice_sem_ropt, (step_ok st St). reflexivity.
-  Qed.
-
-  (* a positional bracket of these shapes selects, after the rewrite, exactly what it selected as written *)
-  Theorem positional_bracket_meaning_kept n b :
-    b_ok b -> (match b with BPosIndex _ | BPosOpenStop _ _ => True | _ => False end) ->
-    index_sem n (b_src b) = b_positions n b.
-  Proof.
-    destruct b as [a|oa ob st|z|oa st]; cbn [b_ok b_src b_positions]; try contradiction.
-    - intros _ _. apply index_sem_single.
-    - intros St _. destruct st as [s|].
-      + change (index_sem n (ropt oa ++ String ch_colon (ropt None ++ String ch_colon (ropt (Some s))))
-                = Some (py_slice_positions n oa None (step_of (Some s)))).
-        rewrite index_sem_slice3 by apply ropt_no_colon. rewrite slice_sem_ropt, (step_ok (Some s) St). reflexivity.
-      + change (index_sem n (ropt oa ++ String ch_colon (ropt None)) = Some (py_slice_positions n oa None (step_of None))).
-        rewrite index_sem_slice2 by apply ropt_no_colon.
-        change (slice_sem n (ropt oa) (ropt None) "") with (slice_sem n (ropt oa) (ropt None) (ropt None)).
-        rewrite slice_sem_ropt. reflexivity.
   Qed.
 
   (* ================================================================ programs *)
@@ -325,6 +286,20 @@ Section Program.
   Definition to_seg (p : pseg) : seg := mkSeg (ps_pre p) (ps_ws1 p) (b_src (ps_b p)) (ps_ws2 p).
   Definition pseg_ok (p : pseg) : Prop :=
     has_char ch_open (ps_pre p) = false /\ str_all is_re_space (ps_ws1 p) = true /\ str_all is_re_space (ps_ws2 p) = true /\ b_ok (ps_b p).
+
+  (* what the bracket of a program segment becomes: a label bracket its C10 text, any other bracket ITSELF *)
+  Definition ps_out (p : pseg) : outcome string :=
+    if is_label_bracket (ps_b p) then b_dst (ps_b p) else Ret (seg_bracket (to_seg p)).
+
+  Lemma seg_out_ps p : pseg_ok p -> seg_out (c10_has ct sp) (c10_locate gl sp) (to_seg p) = ps_out p.
+  Proof.
+    intros (_ & _ & _ & Hb). unfold seg_out, ps_out. cbn [to_seg sg_g]. rewrite (b_src_tick _ Hb).
+    destruct (is_label_bracket (ps_b p)) eqn:E; [|reflexivity]. exact (bracket_resolves _ Hb E).
+  Qed.
+
+  (* every bracket without a backtick comes out verbatim *)
+  Theorem plain_bracket_verbatim p : is_label_bracket (ps_b p) = false -> ps_out p = Ret (seg_bracket (to_seg p)).
+  Proof. intros E. unfold ps_out. rewrite E. reflexivity. Qed.
 
   Definition program_text (prog : list pseg) (tail : string) : string := expr_text (map to_seg prog) tail.
   Definition program_subst (prog : list pseg) (ts : list string) (tail : string) : string := expr_subst (map to_seg prog) ts tail.
@@ -336,24 +311,30 @@ Section Program.
     rewrite H1, H2, H3, (b_src_wf _ H4). reflexivity.
   Qed.
 
-  (* every bracket's C10 text exists: the whole expression is rewritten to the text with each bracket replaced by it *)
+  Lemma program_outs prog ts : Forall pseg_ok prog -> Forall2 (fun p t => ps_out p = Ret t) prog ts ->
+    Forall2 (fun s t => seg_out (c10_has ct sp) (c10_locate gl sp) s = Ret t) (map to_seg prog) ts.
+  Proof.
+    intros Hok HF. induction HF as [|p t r ts' Hpt HF IH]; cbn [map]; constructor.
+    - inversion Hok as [|? ? Hp ?]; subst. rewrite (seg_out_ps p Hp). exact Hpt.
+    - apply IH. inversion Hok; assumption.
+  Qed.
+
+  (* the whole expression: label brackets replaced by their C10 text, every other bracket and all other text verbatim *)
   Theorem program_rewrite prog ts tail :
     Forall pseg_ok prog -> has_char ch_open tail = false ->
-    Forall2 (fun p t => b_dst (ps_b p) = Ret t) prog ts ->
+    Forall2 (fun p t => ps_out p = Ret t) prog ts ->
     rewrite (program_text prog tail) = Ret (program_subst prog ts tail).
   Proof.
     intros Hok Ht HF. unfold program_text, program_subst.
     apply (rewrite_whole_ok (c10_has ct sp) (c10_locate gl sp)); [apply program_segs_ok; exact Hok|exact Ht|].
-    induction HF as [|p t r ts' Hpt HF IH]; cbn [map]; constructor.
-    - cbn [to_seg sg_g]. inversion Hok as [|? ? (_ & _ & _ & Hb) ?]; subst. rewrite (bracket_resolves _ Hb). exact Hpt.
-    - apply IH. inversion Hok; assumption.
+    apply program_outs; assumption.
   Qed.
 
-  (* the leftmost bracket whose label lookup fails decides the exception (KeyError for a label that is not in the span) *)
+  (* the leftmost LABEL bracket whose lookup fails decides the exception (a bracket without a backtick never raises) *)
   Theorem program_first_error prog1 ts p prog2 tail e :
     Forall pseg_ok (prog1 ++ p :: prog2) -> has_char ch_open tail = false ->
-    Forall2 (fun p t => b_dst (ps_b p) = Ret t) prog1 ts ->
-    b_dst (ps_b p) = Raise e ->
+    Forall2 (fun p t => ps_out p = Ret t) prog1 ts ->
+    ps_out p = Raise e ->
     rewrite (program_text (prog1 ++ p :: prog2) tail) = Raise e.
   Proof.
     intros Hok Ht HF He. unfold program_text. rewrite map_app. cbn [map].
@@ -361,11 +342,8 @@ Section Program.
     - change (to_seg p :: map to_seg prog2) with (map to_seg (p :: prog2)).
       rewrite <- (map_app to_seg prog1 (p :: prog2)). apply program_segs_ok; exact Hok.
     - exact Ht.
-    - apply Forall_app in Hok as [Hok1 _]. clear He.
-      induction HF as [|q t r ts' Hqt HF IH]; cbn [map]; constructor.
-      + cbn [to_seg sg_g]. inversion Hok1 as [|? ? (_ & _ & _ & Hb) ?]; subst. rewrite (bracket_resolves _ Hb). exact Hqt.
-      + apply IH. inversion Hok1; assumption.
-    - apply Forall_app in Hok as [_ Hok2]. inversion Hok2 as [|? ? (_ & _ & _ & Hb) ?]; subst.
-      cbn [to_seg sg_g]. rewrite (bracket_resolves _ Hb). exact He.
+    - apply Forall_app in Hok as [Hok1 _]. apply program_outs; assumption.
+    - apply Forall_app in Hok as [_ Hok2]. inversion Hok2 as [|? ? Hp ?]; subst.
+      rewrite (seg_out_ps p Hp). exact He.
   Qed.
 End Program.
